@@ -158,6 +158,62 @@ def diff_coverage(repo: Repo, rep, rule: str, gen: Function, diff_body: List[ast
                           "out-of-date or edited file there is reported as 'no differences'", gen.loc(c))
 
 
+_LCACHE: Dict[str, object] = {}
+
+
+def _escapes_upward(fn: Function, path_expr: ast.AST) -> Optional[str]:
+    from sa.match import Locals
+
+    L = _LCACHE.get(fn.fq) or _LCACHE.setdefault(fn.fq, Locals(fn.node))
+    e = L.inline(path_expr, stop=tuple(L.params))
+
+    def joined(x: ast.AST) -> bool:
+        return any((isinstance(y, ast.BinOp) and isinstance(y.op, ast.Div)) or (isinstance(y, ast.Call) and (dotted(y.func) or "").split(".")[-1] in ("join", "joinpath"))
+                   or isinstance(y, ast.JoinedStr) for y in ast.walk(x))
+
+    # only a *sibling write* escapes: the parent joined with a further name (creating the ancestor directory itself, or its __init__.py, is
+    # the documented ancestor-package mechanism)
+    sibling_bases = set()
+    for j in ast.walk(e):
+        left = right = None
+        if isinstance(j, ast.BinOp) and isinstance(j.op, ast.Div):
+            left, right = j.left, j.right
+        elif isinstance(j, ast.Call) and (dotted(j.func) or "").split(".")[-1] in ("join", "joinpath") and j.args:
+            if isinstance(j.func, ast.Attribute) and j.func.attr == "joinpath":
+                left, right = j.func.value, j.args[0]
+            elif len(j.args) >= 2:
+                left, right = j.args[0], j.args[1]
+        if left is not None and not (isinstance(right, ast.Constant) and right.value == "__init__.py"):
+            sibling_bases |= {id(y) for y in ast.walk(left)}
+    for x in ast.walk(e):
+        base = None
+        if id(x) not in sibling_bases:
+            continue
+        if isinstance(x, ast.Attribute) and x.attr in ("parent", "parents"):
+            base = x.value
+        elif isinstance(x, ast.Call) and (dotted(x.func) or "") in ("os.path.dirname",) and x.args:
+            base = x.args[0]
+        if base is None or joined(base):
+            continue
+        pnames = [n.id for n in ast.walk(base) if isinstance(n, ast.Name) and L.is_param(n.id)]
+        if not pnames:
+            continue
+        P = pnames[0]
+        # a parameter that is itself written as a file is a file path: its parent is the directory it lives in (fine)
+        is_file = False
+        for c in calls_in(fn.node, include_nested_defs=True):
+            d = dotted(c.func) or ""
+            if d == "open" and c.args and isinstance(c.args[0], ast.Name) and L.root(c.args[0].id) == P:
+                is_file = True
+            if isinstance(c.func, ast.Attribute) and c.func.attr in ("write_text", "write_bytes", "open", "touch") and isinstance(c.func.value, ast.Name) and L.root(c.func.value.id) == P:
+                is_file = True
+        if "file" in P.lower() or P.lower().endswith(("path", "dst", "dest")) and "dir" not in P.lower():
+            is_file = is_file or any(k in P.lower() for k in ("file", "dst", "dest"))
+        if not is_file:
+            return norm(x)[:60]
+    return None
+
+
 def run(repo: Repo, rep: Report, tier: str) -> None:
     gen = repo.func(GEN)
     sw, atoms, ex_atoms = find_mode_switch(gen)  # type: ignore[misc]
@@ -343,6 +399,13 @@ def run(repo: Repo, rep: Report, tier: str) -> None:
                     ("call", "tempfile.TemporaryDirectory") in roots
                 abs_const = sorted(r[1] for r in roots if r[0] == "const" and ((r[1].startswith("/") and len(r[1]) > 1) or r[1].startswith("~")))
                 updir = sorted(r[1] for r in roots if r[0] == "const" and ".." in r[1].split("/"))
+                # upward navigation from a directory the function was given: `<dir param>.parent / "x"`, `dirname(<dir param>)`
+                escapes = _escapes_upward(fn, path_expr)
+                if escapes and not (ambient or abs_const or updir or not anchored):
+                    rep.violation("R10.2", sub, f"{fn.fq}|sink-escapes-upward|{kind}",
+                                  f"the path is built from the *parent* of a directory this function was given (`{escapes}`): the write lands next to, not inside, "
+                                  "the output / core package", loc)
+                    continue
                 if ambient or abs_const or updir or not anchored or globs:
                     why = (f"ambient root {ambient}" if ambient else f"absolute constant {abs_const}" if abs_const else
                            f"parent-directory constant {updir}" if updir else f"module-level value {globs}" if globs else "no parameter/attribute root (relative to cwd)")
